@@ -205,9 +205,9 @@ def invalid_cases(rng, ng, table_names):
     out.append(with_text("wrong type: syscalls is a string", "seccomp:\n  default_action: allow\n  syscalls: getpid\n"))
     out.append(with_text("wrong type: default_action is a list", y.replace("default_action: allow", "default_action: [allow, errno]", 1).replace("default_action: log", "default_action: [log]", 1)))
     out.append(with_text("wrong type: value is a string", "seccomp:\n  default_action: allow\n  syscalls:\n  - action: errno\n    names_with_args:\n    - name: getuid\n      arguments:\n      - argument: 0\n        operation: Equal\n        value: many\n"))
-    for bogus in ["permit", "kill", "ERRNO_", "0x50000", ""]:
+    for bogus, where in [(b, w) for b in ["permit", "kill", "ERRNO_", "0x50000", "", "user_notify", "unknown"] for w in ("default", "group")]:
         pol = good()
-        tgt = rng.choice(["default"] + list(range(len(pol["groups"]))))
+        tgt = "default" if where == "default" else rng.randrange(len(pol["groups"]))
         text = render_yaml(pol)
         if tgt == "default":
             text = text.replace("default_action: %s" % ACTION_NAMES[pol["default"]], "default_action: %s" % (bogus or '""'), 1)
@@ -215,7 +215,7 @@ def invalid_cases(rng, ng, table_names):
             parts = text.split("  - action: ")
             parts[tgt + 1] = (bogus or '""') + parts[tgt + 1][parts[tgt + 1].index("\n"):]
             text = "  - action: ".join(parts)
-        out.append(with_text("unknown action %r" % bogus, text))
+        out.append(with_text("unknown action %r as %s action" % (bogus, where), text))
     for bogus in ["nosuchcall", "GETPID", "getpid2", "x32_read", "open at"]:
         pol = good()
         g = rng.choice(pol["groups"])
